@@ -32,7 +32,7 @@ VALS = ["V0", "V1"]
 PMACS = ["H0", "H1"]
 KNOWN_CC = ["gcc", "g++", "clang", "clang++", "/usr/bin/gcc", "icx", "nvcc"]
 UNKNOWN_CC = ["mycc", "cc", "/opt/bin/xlc", "ifort"]
-OK_FLAGS = [["-O2"], ["-O0"], ["-g"], ["-c"], ["-o", "a.o"], ["-oa.o"]]
+OK_FLAGS = [["-O2"], ["-O0"], ["-O"], ["-g"], ["-g3"], ["-ggdb"], ["-c"], ["-cpp"], ["-o", "a.o"], ["-oa.o"]]
 BAD_FLAGS = [["-Wall"], ["-fPIC"], ["-std=c11"], ["-march=native"], ["-pthread"], ["-MMD"], ["--coverage"], ["-W"]]
 CC_FLAGS = [["-fopenmp"], ["-fsycl-is-device"], ["-fsycl"]]
 UNK_POOL = [
@@ -245,8 +245,12 @@ def gen_args(rng, names, cc, malformed):
     rng.shuffle(groups)
     args = [a for g in groups for a in g]
     if malformed and rng.random() < 0.3:
-        args.append(["R", rng.choice(["-o", "-O", "-D", "-include"])])      # a flag whose argument is missing:
-        args.append(["R", rng.choice(["-c", "-g", "-Wall"])])               # the next token is another flag
+        if rng.random() < 0.25:
+            args.insert(rng.randrange(len(args) + 1), ["R", "-i"])             # ambiguous: -isystem or -include
+        else:
+            k = rng.randrange(len(args) + 1)                                   # a flag whose argument is missing:
+            args[k:k] = [["R", rng.choice(["-o", "-O", "-D", "-include"])],    # the next token is another flag
+                         ["R", rng.choice(["-c", "-g", "-Wall"])]]
     return args
 
 
@@ -375,6 +379,7 @@ REC_RE = [
     ("unknown-args", re.compile(r"^Unrecognized arguments: '(.*)'$", re.S)),
     ("empty-db", re.compile(r"^No files found in compilation database at '(.*)'\.\nEnsure that 'directory' and 'file' are in the root directory\.$", re.S)),
     ("unknown-directive", re.compile(r"^(.*):(\d+):(\d+): unrecognized directive '(\[.*\])'$", re.S)),
+    ("bad-command", re.compile(r"^Could not parse all arguments: (.*)$", re.S)),
     ("missing-forced", re.compile(r"^(.*): forced include '(.*)' not found$", re.S)),
     ("missing-include", re.compile(r"^(.*):(\d+): (user|system) include '(.*)' not found\n *(\d+) \| (.*)$", re.S)),
 ]
@@ -643,6 +648,8 @@ class C18(Check):
     def in_domain(self, case, sa):
         if sa is None or sa[0] != "Ok":
             return False
+        if any(a in (["R", "-i"], ["R", "-f"]) for _, es in case[1] for _, cc, args in es for a in args):
+            return False          # bare prefixes of several flags (ambiguous / abbreviated): argparse's business (C11); M models them, S does not read them
         return all(balanced(ls) for _, ls in case[0])
 
     def nontrivial(self, case, ia):
@@ -769,7 +776,7 @@ class C18(Check):
             if not cand:
                 continue
             f, args = self.rng.choice(cand)
-            args = [["I", False, x[2]] if x[0] == "I" else x for x in args if x[0] in ("I", "D", "F")] + [["I", False, ["empty"]]]
+            args = [x for x in args if x[0] in ("I", "D", "F")] + [["I", False, ["empty"]]]     # -I and -isystem as generated
             singles.append([files, [["P0", [[f, "gcc", args]]]], {"cli": False}])
         answers = common.run_model("C18", [self.encode(c) for c in singles])
         root = common.scratch() / "c18gcc"
